@@ -714,6 +714,9 @@ func (env *Env) call(x *ast.CallExpr) TV {
 			switch types.Unalias(v.Ty).Underlying().(type) {
 			case *types.Slice:
 				return TV{or("(= (s-cap "+v.T+") 0)", "(>= (s-base "+v.T+") "+env.top0+")"), tBool}
+			case *types.Interface:
+				// (a modelled set: the set object behind the interface value)
+				return TV{"(>= (i-ref " + v.T + ") " + env.top0 + ")", tBool}
 			default:
 				return TV{"(>= " + v.T + " " + env.top0 + ")", tBool}
 			}
